@@ -17,9 +17,13 @@ MANIFEST = dict(
               'operation list, every placement/dir_limit/size, CRC as a Section function with an explicit no-collision premise); directory-tree '
               'codec round trip (versions 1 and 2); archive file naming (writer and readers use the same file, symbolic evaluation of the '
               'translated prefix expressions); name forms; read-only rejection + ast translators (format constants, placement/validation sites, '
-              'prefix expression of every get_arch_filename site, the split statement of _get_file_parts) with kernel-checked instance '
-              'obligations + vm_compute correspondence (histories on real directories byte-exact, independent decode incl. version 2 and damaged '
-              'files, archive names really opened, name forms) + oracle search with a strict independent decoder',
+              'prefix expression of every get_arch_filename site, the split statement of _get_file_parts; round 3: the NUL-terminated string '
+              'codec by symbolic execution of _write_nullstring and loop-shape classification of iter_nullstr, the clean-up program of '
+              '__delitem__, new_file executed symbolically on a small heap, the truth table of __exit__, OpenModes.writable, writability guards, '
+              'load_dirfile reset, listing walks) with kernel-checked instance obligations + vm_compute correspondence (histories on real '
+              'directories byte-exact incl. with-blocks and load_dirfile() on the same object, independent decode incl. version 2 and damaged '
+              'files, archive names really opened, name forms, NUL-terminated streams, nested dicts) + oracle search with a strict independent '
+              'decoder',
     text='Theorems in Props/C13.v. c13_vpk_refines_map: for every configuration that validates indexes and names, every finite sequence of '
          'new_file/add_file/FileInfo.write/del/write_dirfile/reopen(r,w,a) on a fresh archive whose write_dirfile calls do not overflow a 32-bit '
          'field and whose data values (with the empty string) do not collide under the checksum: the model SM/Vpk.v returns the result code of '
@@ -33,17 +37,25 @@ MANIFEST = dict(
          'directory file, distinct indexes are distinct files and none is the directory file; character stripping (rstrip) is refuted by a '
          'computed witness. Name forms: string, 2-tuple and 3-tuple agree for every normpath whenever the translated split statement cuts at '
          'the last dot (first-dot split refuted). All generic theorems are instantiated by kernel-checked obligations on Gen/VpkPlace_gen.v and '
-         'Gen/VpkArchName_gen.v regenerated from vpk.py on every run.',
+         'Gen/VpkArchName_gen.v regenerated from vpk.py on every run. Round 3: c13_api_refines_map / c13_with_block_saves extend the whole-history '
+         'statement to with-blocks (left normally or by an exception, over the translated truth table of __exit__) and to load_dirfile() called '
+         'again on the same object; the NUL-terminated string codec of the tree is a translated description and every accepted reader shape (one '
+         'byte at a time, or blocks of any size in a loop) reads back every NUL-free string of any length (a single-block reader is refuted for '
+         'every block size); the nested dicts _fileinfo[ext][folder][name] satisfy the three finite-map laws for lookup (__getitem__), insertion '
+         '(new_file, over the translated get-or-create steps) and deletion (__delitem__, over the translated clean-up program, which is also the '
+         'flat delete of the state machine) for every tree without a well-formedness assumption; wrong variants are refuted by computed witnesses.',
     note='The model SM/Vpk.v (step/run), the codec Fmt/VpkDir.v/VpkDirV2.v, Fmt/VpkName.v and the string primitives of Fmt/VpkArchName.v are '
          'hand-written and tied to srctools.vpk by differential runs on every run (not by proof): histories on real temp directories compared '
          'byte-exactly, decode of written/damaged/version-2 files, the archive files really opened by the three get_arch_filename sites, name '
-         'forms. Trusted: Coq kernel + vm_compute (incl. Uint63 for the test CRC-32), translate/c13_vpk.py, translate/c13_archname.py, '
+         'forms, NUL-terminated streams, new_file/del sequences on the nested dicts. Trusted: Coq kernel + vm_compute (incl. Uint63 for the test '
+         'CRC-32), translate/c13_vpk.py, c13_archname.py, c13_nullstr.py, c13_nested.py, c13_api.py, '
          'zlib.crc32 (a Section variable in the theorems; its chaining crc32(b, crc32(a)) = crc32(a+b) is assumed), posixpath.normpath (a '
          'parameter of the name theorems), OS append/seek semantics (archives modelled as append-only byte lists; the "ab" open mode and '
          'seek(0, SEEK_END) are a translated site). Premises that are real limits of the code: a write whose CRC-32 equals the stored one is '
-         'skipped (collision premise); fields >= 4 GiB make write_dirfile raise. Outside the model: writing version 2, the root= argument, '
-         'add_folder/extract_all/script_write, VPKFileSystem, stale FileInfo handles, other processes, archive files present before the '
-         'history. File names whose last component ends in "." are listed without the dot (known finding name-trailing-dot).',
+         'skipped (collision premise); fields >= 4 GiB make write_dirfile raise. Only searched (not modelled): add_folder, extract_all, the '
+         'non-default arguments of filenames/fileinfos/folders, FileInfo.size. Outside: writing version 2, the root= argument, script_write, '
+         'VPKFileSystem, stale FileInfo handles, other processes, archive files present before the history, a load_dirfile() on the same object '
+         'that fails half-way. File names whose last component ends in "." are listed without the dot (known finding name-trailing-dot).',
 )
 
 IMPORTS = ['Coq.Lists.List', 'Coq.NArith.NArith', 'SV.Fmt.VpkDir', 'SV.SM.Vpk', 'SV.Fmt.VpkArchName', 'SV.SM.VpkCorr', 'SV.Gen.VpkPlace_gen',
@@ -1375,7 +1387,9 @@ def corr_archnames(ck: Ck) -> list[str]:
 
 # ------------------------------------------------------------------------------------------------ main
 def run(ck: Ck) -> None:
-    ck.rule = ('histories: random sequences of new/add/write/del/write_dirfile/reopen(r,w,a) over a pool of names that collide '
+    ck.rule = ('histories: random sequences of new/add/write/del/write_dirfile/reopen(r,w,a)/with-block exit (normal, exception)/load_dirfile() on '
+               'the same object over a pool of names that collide, 5% with a tree string (folder, nested folder path, stem, extension) of a boundary '
+               'length 127..5000 '
                '(empty folder/extension parts, three name forms, normalised paths) with sizes clustered around dir_limit, 1024 and '
                '65535/65536 up to 300000, limits None/0/1/4/8/64/1024/70000, indexes None/0/1/.../32766 and out-of-range, _dir and '
                'singular archives, always ending in write_dirfile + reopen; non-trivial = at least one file exists at the end and '
@@ -1384,10 +1398,14 @@ def run(ck: Ck) -> None:
                'non-trivial = at least one entry loads. names: pool + random strings over "ab./\\\\ ", non-trivial = not all parts empty. '
                'archive names: VPK file names = bases ending in/containing characters of "_dir.vpk" x suffixes (_dir.vpk, .vpk, none, _dir, '
                'dir.vpk, _DIR.vpk, ...) + random strings over "_dir.vpka0", two distinct indexes from 0..32766 each; observed = _dir_prefix and '
-               'the file each of the three get_arch_filename sites really opens; non-trivial = a directory VPK.')
+               'the file each of the three get_arch_filename sites really opens; non-trivial = a directory VPK. NUL-terminated streams: '
+               'sections of strings incl. lengths around 255/256 and damaged streams. nested dicts: 1..8 files over 3 extensions x 4 folders x 3 '
+               'stems then 1..6 deletes; sequences of 2..14 new_file/del from an empty archive with 4 membership probes. folders: add_folder over 3 '
+               'directory trees x 5 prefixes, extract_all.')
     ck.trusted.append('hand-written models Fmt/VpkDir.v, Fmt/VpkDirV2.v, SM/Vpk.v, Fmt/VpkName.v, string primitives of Fmt/VpkArchName.v (tied by '
                       'differential correspondence on every run); zlib.crc32 incl. its chaining property; posixpath.normpath; '
-                      'translate/c13_archname.py')
+                      'translate/c13_archname.py, c13_nullstr.py, c13_nested.py, c13_api.py; hand-written SM/VpkApi.v, SM/VpkNested.v, '
+                      'SM/VpkNestedMap.v, Fmt/VpkNullStr.v (tied by the translated descriptions and by correspondence)')
     ck.assumptions += [
         'the data values written in one history, together with the empty string, have pairwise different CRC-32 unless equal (premise collision_free of c13_vpk_refines_map: FileInfo.write skips a write whose checksum equals the stored one; checked with zlib on every generated history, see input_distribution.refinement_premise)',
         'no archive or directory field exceeds 32 bits (write_dirfile would raise struct.error; the refinement is stated for histories whose run is not None)',
